@@ -501,6 +501,7 @@ impl BDF {
                 change_d(&mut d, order, factor, &mut scratch_change);
                 current_h *= factor;
                 n_equal_steps = 0;
+                lu_is_current = false; // Step size changed
                 steps.rejected += 1;
                 continue;
             }
